@@ -921,8 +921,19 @@ class AirTouch4(pyairtouch.api.AirTouch):
             )
 
     async def _message_received(  # noqa: C901
-        self, _: pyairtouch.at4.comms.hdr.At4Header, message: pyairtouch.comms.Message
+        self,
+        header: pyairtouch.at4.comms.hdr.At4Header,
+        message: pyairtouch.comms.Message,
     ) -> None:
+        if (
+            self._state != _AirTouchState.CONNECTED
+            and header.to_address != pyairtouch.at4.comms.hdr.ADDRESS_CLIENT
+        ):
+            # While initialising, only responses addressed to this client may
+            # be taken as the answer to our requests. The AirTouch also relays
+            # messages addressed to other clients.
+            return
+
         # Process messages according to the current state.
         # Unexpected messages are silently ignored.
         match message:
